@@ -229,7 +229,7 @@ Theorem C08_stl_checked_gsi_block : forall b, length b = 1024%nat -> parse_gsi_c
 Proof. exact parse_gsi_c_ok. Qed.
 Theorem C08_stl_checked_tti_block : forall (p : list N) (fps : Z), length p = 128%nat -> fps <> BinNums.Z0 -> parse_tti_c p fps = Ok (parse_tti p fps).
 Proof. exact parse_tti_c_ok. Qed.
-Theorem C08_stl_checked_cue_list : forall (l : list (option gitem)) (p : N), items_c l = Ok (map item_flat (somes l)) /\ items_c l <> Panic p.
+Theorem C08_stl_checked_cue_list : forall (l : list (option gsitem)) (p : N), items_c l = Ok (map item_flat (somes l)) /\ items_c l <> Panic p.
 Proof. intros l p. split; [apply items_c_ok | apply items_c_no_panic]. Qed.
 (* the tables the guards rely on, from the code of this run *)
 Theorem C08_stl_checked_tables :
@@ -257,14 +257,14 @@ Print Assumptions C08_stl_checked_tti_block.
 Print Assumptions C08_stl_checked_cue_list.
 Print Assumptions C08_stl_checked_tables.
 (* WriteToSTL on the Go-shaped cue list: []*Item with nil elements anywhere, Item.InlineStyle / STLJustification / STLPosition
-   and LineItem.InlineStyle / the three *bool possibly nil (Model/StlCW.v gitem; write_stl_items_c = the checked cue list,
+   and LineItem.InlineStyle / the three *bool possibly nil (Model/StlCW.v gsitem; write_stl_items_c = the checked cue list,
    then the checked writer of Model/StlC.v).  No panic site is reachable; the bytes are the writer model's on the flattened
    list of the non-nil elements; a nil element anywhere changes nothing (stl.go 943: "s.Items = nonNilItems(s.Items)" before
    the emptiness test, newGSIBlock - TNB, TNS, TCF from Items[0] - and the loop); a list of nil elements only is "nothing
    to write".  The driver suite stlwritem runs write_stl_items_c on the harness's cue lists WITH their nil elements. *)
-Theorem C08_stl_writer_total_nil_items : forall now md (l : list (option gitem)) (p : N), write_stl_items_c now md l <> Panic p.
+Theorem C08_stl_writer_total_nil_items : forall now md (l : list (option gsitem)) (p : N), write_stl_items_c now md l <> Panic p.
 Proof. exact write_stl_items_c_no_panic. Qed.
-Theorem C08_stl_nil_items_skipped : forall now md (l : list gitem) (a b : list (option gitem)),
+Theorem C08_stl_nil_items_skipped : forall now md (l : list gsitem) (a b : list (option gsitem)),
   write_stl_items_c now md (map Some l) = write_stl_c now md (map item_flat l) /\
   write_stl_items_c now md (a ++ None :: b) = write_stl_items_c now md (a ++ b).
 Proof.
